@@ -13,7 +13,7 @@ From LV Require Import Base.Bytes Base.Sx Model.Obj Model.Writer Model.Parser Mo
 From LV Require Model.A85 Model.AsciiHex Spec.AsciiHexSpec Proofs.AsciiHexProofs.
 From LV Require Import Proofs.SpellingNumProofs Proofs.SpellingObjProofs Proofs.SpellingFileProofs Proofs.SpellingProofsLitRaw.
 From LV Require Model.Utf Proofs.LoadsFrameProofs Proofs.LoadsTableProofs Proofs.LoadsStreamProofs Proofs.LoadsFilterProofs.
-From LV Require Model.LoaderExt Model.StreamFilt Spec.StreamCodecSpec Model.Png Proofs.ObjStmSpellProofs Proofs.LengthRefProofs Gen.SaveFmt Proofs.LoadsRefLenProofs.
+From LV Require Model.LoaderExt Model.StreamFilt Spec.StreamCodecSpec Model.Png Proofs.ObjStmSpellProofs Proofs.LengthRefProofs Gen.SaveFmt Proofs.LoadsRefLenProofs Proofs.ObjStmFilterProofs.
 Local Open Scope N_scope.
 
 (* (1) Cross-reference streams.  For ALL field widths (0 = field absent, any positive width, not all three
@@ -801,6 +801,42 @@ Proof.
            end.
 Qed.
 
+(* OBJECT STREAMS through ObjectStream::new with Stream::decompress := decompress_ref: for the container object the
+   reference writer builds (os_object: Type ObjStm, N, First, the filter entries, Length), handed over as the loader does
+   (the dictionary read back in any spelling [sts], Length set), the decompression attempt leaves the payload -- no Filter:
+   Stream::decompress fails and the stream stays as it is; ASCII85, ASCIIHex, stored-block Flate, ASCII85 around Flate: the
+   chain is decoded (C02_filter_chain_decodes) -- and the members are exactly the denoted objects (C02_objstm_any_spelling).
+   PARTIAL: no PNG predictor on the object stream ([no_pred]: the writer pads such a payload with spaces to whole rows);
+   the loop of the reader over a file with containers (read_entries_x / merge_object_streams) is not composed. *)
+Theorem C02_objstm_new_filtered :
+  forall (objs : list (oid * obj)) (s : ostm) (items : list ositem) (sts : list (nstyle * filler * ostyle * filler)),
+    os_build objs (os_members s) (os_items s) true = Some items -> os_members s <> [] -> NoDup (os_members s) ->
+    Forall (fun m => m <= u32_max) (os_members s) ->
+    Forall (fun oy => ObjStmSpellProofs.mem_ok (fst oy) (snd oy)) (ObjStmSpellProofs.os_pairs objs (os_members s) (os_items s)) ->
+    N.of_nat (length (flat_map oi_text items)) <= u32_max ->
+    LoadsFilterProofs.no_pred (os_filter s) ->
+    os_object objs s = Some (OStream (ObjStmFilterProofs.dC s items) (fst (ObjStmFilterProofs.enc s items))) /\
+    exists d', objstm_new LoadsFilterProofs.decompress_ref (ObjStmFilterProofs.D s items sts) (fst (ObjStmFilterProofs.enc s items)) =
+               ((d', ObjStmFilterProofs.payload s items), OsOk (ObjStmFilterProofs.members_val objs s items)).
+Proof.
+  intros objs s items sts Hb Hne Hnd Hm Hok Hlen Hnp. split.
+  - exact (ObjStmFilterProofs.os_object_eq objs s items Hb).
+  - exact (ObjStmFilterProofs.objstm_new_ref objs s items sts Hb Hne Hnd Hm Hok Hlen Hnp).
+Qed.
+
+Definition ex_ostm : ostm :=
+  {| os_id := 20; os_members := [4; 7; 5]; os_items := ex_os_sts; os_hdr_end := [5]; os_filter := SfA85Flate 2 None;
+     os_array := true; os_istyle := default_istyle |}.
+
+(* non-vacuity: the three members of C02_example_objstm_any_spelling behind ASCII85 around stored-block Flate *)
+Theorem C02_example_objstm_new_filtered :
+  exists items,
+    os_build ex_os_objs (os_members ex_ostm) (os_items ex_ostm) true = Some items /\
+    LoadsFilterProofs.no_pred (os_filter ex_ostm) /\
+    snd (objstm_new LoadsFilterProofs.decompress_ref (ObjStmFilterProofs.D ex_ostm items []) (fst (ObjStmFilterProofs.enc ex_ostm items))) =
+    OsOk [((4, 0), OInt 5); ((5, 0), OName (bs "N x")); ((7, 0), ODict [(bs "K", OArr [ORef 1 0; OStr (bs "a") false])])].
+Proof. eexists. split; [vm_compute; reflexivity|]. split; [exact I|vm_compute; reflexivity]. Qed.
+
 (* the frame: Reader::read reduced to its pieces, for any file junk ++ F *)
 Theorem C02_load_frame :
   forall (junk F pre xr : bytes) version x0 t0 objs,
@@ -965,6 +1001,8 @@ Print Assumptions C02_length_ref_content.
 Print Assumptions C02_example_length_ref.
 Print Assumptions C02_loads_table_reflen_partial.
 Print Assumptions C02_example_loads_table_reflen.
+Print Assumptions C02_objstm_new_filtered.
+Print Assumptions C02_example_objstm_new_filtered.
 Print Assumptions C02_load_frame.
 Print Assumptions C02_example_loads_table.
 Print Assumptions C02_example_object.
